@@ -98,6 +98,8 @@ let run (kind : string) : bool =
     emit (linearSpace2_det__ ii a); pm2 (linearSpace2_adjoint__ ii a); pm2 (linearSpace2_inverse__ ii a);
     pm2 (linearSpace2_transposed__ ii a); p2 (linearSpace2_row0__ ii a); p2 (linearSpace2_row1__ ii a);
     pm2 (op_mul__LinearSpace2_LinearSpace2 ii a b); p2 (op_mul__LinearSpace2_v2f ii a v); pm2 (linearSpace2_scale__v2f ii v); true
+  | "o2" ->   (* hand model of LinearSpace2::orthogonal() (coq/C06/Ortho.v) over the regenerated callees *)
+    let a = m2 () in pm2 (orthogonal ii a); true
   | "r2" ->
     let r = n () in let p = v2 () in
     pm2 (linearSpace2_rotate__f ii r); pa2 (affineSpaceT_LinearSpace2_v2f_rotate__v2f_f ii p r); true
